@@ -84,6 +84,7 @@ def gen_member(rng, i):
         p[k][j] = v
     elif i < len(axes) + 7:
         p["allowed"] = ORDER[i - len(axes):]
+        p["chase_cname"] = p["allowed"] == ["A"] or i % 2 == 0
         if i - len(axes) > 0:
             p["refuse"] = "servfail" if i % 2 else "silence"
     elif i < len(axes) + 10:
@@ -101,6 +102,7 @@ def gen_member(rng, i):
             p["edns0"] = "formerr"        # does not honour EDNS0 the loud way: FORMERR to every query with an OPT record
         p["refuse"] = rng.choice(["servfail", "silence"])
         p["rr_order"] = rng.choice(["keep", "keep", "rotate", "reverse"])      # (resolvers rotate RRsets; the protocol numbers its records)
+        p["chase_cname"] = rng.random() < 0.3          # (recursive resolvers chase the CNAME they get for an A question -> NXDOMAIN + record)
         if not member_valid(p):
             p["allowed"] = sorted(set(p["allowed"]) | {rng.choice(["TXT", "SRV", "MX", "CNAME", "A"])}, key=ORDER.index)
     return p
@@ -122,6 +124,7 @@ def scn(params):
         rl = relay.XformRelay(scen.RELAY_IP, (scen.SERVER_IP, 53), random.Random(rng.getrandbits(32)), tuple(m["qcfg"]), tuple(m["acfg"]),
                               [TNUM[t] for t in m["allowed"]], m["limit"], m["edns0"], refuse_mode=m["refuse"])
         rl.rr_order = m.get("rr_order", "keep")
+        rl.chase_cname = bool(m.get("chase_cname"))
         k.add_actor(scen.RELAY_IP, rl)
         if params.get("pred"):
             # somebody else used the server (directly, with non-default codecs) and vanished more than a minute ago
